@@ -153,7 +153,9 @@ class Report:
             else:
                 new.append(v)
         rdir = os.path.join(VERIF, "replays", self.pid)
-        for v in new:
+        if len(new) > 15:
+            print(f"({len(new)} new violations; writing replay files for the first 15)")
+        for v in new[:15]:
             os.makedirs(rdir, exist_ok=True)
             h = hashlib.sha1(json.dumps(v["replay"], sort_keys=True, default=str).encode()).hexdigest()[:12]
             path = os.path.join(rdir, h + ".json")
